@@ -9,30 +9,10 @@ Open Scope string_scope.
 Definition mem_str (s : string) (l : list string) : bool := existsb (String.eqb s) l.
 Definition all_in (a b : list string) : bool := forallb (fun s => mem_str s b) a.
 
-(* the relation type names dispatched on by Convert *)
-Lemma convert_literals : all_in ["type"; "route"; "multipolygon"; "boundary"] lits_Convert = true.
-Proof. vm_compute. reflexivity. Qed.
-
-(* roles, the old-style ignore map and the id format of buildPolygon *)
-Lemma build_polygon_literals :
-  all_in ["inner"; "outer"; "type"; "true"; "%s/%d"; "id"; "tags"; "tainted"] lits_context_buildPolygon = true.
-Proof. vm_compute. reflexivity. Qed.
-
+(* the string literals and branch conditions of osmgeojson are tied in C17/GenOkFlow.v (from
+   gen/GenFlow.v, package-wide and path-sensitive, so moving code between functions is harmless) *)
 Lemma old_style_ignore_ok : old_style_ignore = [("type", "true")].
 Proof. reflexivity. Qed.
-
-Lemma feature_id_formats :
-  mem_str "node/%d" lits_context_nodeToFeature && mem_str "way/%d" lits_context_wayToFeature
-  && mem_str "relation/%d" lits_context_buildRouteLineString = true.
-Proof. vm_compute. reflexivity. Qed.
-
-Lemma meta_keys :
-  all_in ["relations"; "timestamp"; "version"; "changeset"; "user"; "uid"; "meta"] lits_context_addMetaProperties = true.
-Proof. vm_compute. reflexivity. Qed.
-
-(* hasInterestingTags compares the ignore map's value with "true" *)
-Lemma ignore_true_literal : mem_str "true" lits_hasInterestingTags = true.
-Proof. vm_compute. reflexivity. Qed.
 
 (* the table is a set of distinct keys (the model's [uninteresting] is membership) *)
 Lemma uninteresting_nodup : NoDup uninteresting_tags.
